@@ -900,7 +900,13 @@ import functools
 from qmi.core.rpc import QMI_RpcObject, rpc_method
 from qmi.core.instrument import QMI_Instrument
 from qmi.core.pubsub import QMI_Signal
+from qmi.core.task import QMI_Task, QMI_TaskRunner
 LOG = []
+
+
+class R_Task(QMI_Task):
+    def run(self):
+        pass
 
 
 class MarkedCallable:
@@ -983,6 +989,16 @@ FIXED_SPEC = [
     ("M_two", "MMix, MMix2, QMI_RpcObject", [], []),
     ("M_two_rev", "MMix2, MMix, QMI_RpcObject", [], []),
     ("M_after_child_marks", "M_after", [("plain", "fm")], []),
+    # classes a context binds to one object name one after the other (proxy acquisition routes)
+    ("R_v1", "QMI_RpcObject", [("measure", "fm"), ("reset", "fm"), ("status", "fm"), ("info", "fm"), ("_helper", "fu")], []),
+    ("R_v2", "QMI_RpcObject", [("measure", "fm"), ("calibrate", "fm"), ("reset", "fu"), ("status", "prop"),
+                               ("info", "data_int"), ("_helper", "fu")], []),
+    ("R_v3", "R_v1", [("reset", "fu"), ("extra", "fm")], []),
+    ("R_other", "QMI_RpcObject", [("ping", "fm"), ("measure", "fu")], []),
+    ("R_i1", "QMI_Instrument", [("read", "fm"), ("zero", "fm")], []),
+    ("R_i2", "QMI_Instrument", [("read", "fm"), ("zero", "fu"), ("tune", "fm")], []),
+    ("R_t1", "QMI_TaskRunner", [("poke", "fm"), ("nudge", "fu")], []),
+    ("R_t2", "QMI_TaskRunner", [("poke", "fu"), ("nudge", "fm")], []),
 ]
 
 
@@ -1270,6 +1286,271 @@ def history_bucket(ck, tabs, gtabs, cache, gmod, gen_params=None):
             "; ".join(cN(c) for c in observed)))
     return terms, total, [o["fq"] for o in objs]
 
+
+# ---------------------------------------------------------------------------------------------
+# fixed + seeded bucket: the routes by which a proxy reaches a client, along histories (H3: dsched)
+# ---------------------------------------------------------------------------------------------
+ROUTE_FAMILIES = {"dev": ["R_v1", "R_v2", "R_v3", "R_other"], "aux": ["R_other", "R_v2", "R_v1"],
+                  "ins": ["R_i1", "R_i2"], "tsk": ["R_t1", "R_t2"]}
+ROUTE_POOL = ["measure", "reset", "status", "info", "_helper", "calibrate", "extra", "ping", "read", "zero", "tune",
+              "poke", "nudge", "get_name", "get_signals", "lock", "unlock", "is_locked", "force_unlock",
+              "nonexistent", "__init__", "_name", "rpc_object_descriptor", "release_rpc_object", "get_category"]
+
+ROUTE_FIXED = [
+    # the object is replaced by one of another class while the peer connection stays up
+    [("create", "dev", "R_v1"), ("lookup", "cli", "by_name", "dev"), ("remove", "dev"), ("create", "dev", "R_v2"),
+     ("lookup", "cli", "by_name", "dev"), ("lookup", "srv", "by_name", "dev"), ("served", "cli", "dev"),
+     ("served", "srv", "dev"), ("list", "cli"), ("list", "srv")],
+    # ... with a disconnect / reconnect in between
+    [("create", "dev", "R_v1"), ("lookup", "cli", "by_name", "dev"), ("remove", "dev"), ("reconnect",),
+     ("create", "dev", "R_v2"), ("lookup", "cli", "by_name", "dev"), ("reconnect",), ("lookup", "cli", "by_name", "dev")],
+    # interleaved with lookups of other names; lookup before the name exists; lookup while it is absent
+    [("lookup", "cli", "by_name", "dev"), ("create", "aux", "R_other"), ("create", "dev", "R_v1"),
+     ("lookup", "cli", "by_name", "aux"), ("lookup", "cli", "by_name", "dev"), ("remove", "dev"),
+     ("lookup", "cli", "by_name", "dev"), ("lookup", "cli", "by_name", "aux"), ("create", "dev", "R_v3"),
+     ("lookup", "cli", "by_name", "aux"), ("lookup", "cli", "instrument", "dev"), ("remove", "aux"),
+     ("create", "aux", "R_v2"), ("lookup", "cli", "task", "aux"), ("lookup", "cli", "by_name", "dev"),
+     ("create", "dev", "R_v2"), ("lookup", "srv", "by_name", "dev"), ("list", "cli")],
+    # instruments through get_instrument, tasks through get_task
+    [("create", "ins", "R_i1"), ("lookup", "cli", "instrument", "ins"), ("lookup", "srv", "instrument", "ins"),
+     ("remove", "ins"), ("create", "ins", "R_i2"), ("lookup", "cli", "instrument", "ins"),
+     ("lookup", "srv", "instrument", "ins"), ("served", "cli", "ins"),
+     ("create", "tsk", "R_t1"), ("lookup", "cli", "task", "tsk"), ("remove", "tsk"), ("create", "tsk", "R_t2"),
+     ("lookup", "cli", "task", "tsk"), ("lookup", "srv", "task", "tsk"), ("list", "cli")],
+    # back to the first class; same class again
+    [("create", "dev", "R_v1"), ("lookup", "cli", "by_name", "dev"), ("remove", "dev"), ("create", "dev", "R_v2"),
+     ("lookup", "cli", "by_name", "dev"), ("remove", "dev"), ("create", "dev", "R_v1"),
+     ("lookup", "cli", "by_name", "dev"), ("remove", "dev"), ("create", "dev", "R_v1"),
+     ("lookup", "cli", "by_name", "dev"), ("served", "cli", "dev")],
+]
+
+
+def gen_route_history(seed, n):
+    rng = random.Random(seed)
+    ops = []
+    bound = {}
+    for _ in range(n):
+        k = rng.choices(["create", "remove", "lookup", "served", "list", "reconnect", "swap"],
+                        [3, 2, 7, 2, 1, 1, 3])[0]
+        name = rng.choice(list(ROUTE_FAMILIES))
+        if k == "create":
+            ops.append(("create", name, rng.choice(ROUTE_FAMILIES[name])))       # may be a duplicate name: refused
+            bound.setdefault(name, ops[-1][2])
+        elif k == "remove":
+            if name in bound:
+                ops.append(("remove", name))
+                del bound[name]
+        elif k == "swap":
+            if name in bound:
+                new = rng.choice([c for c in ROUTE_FAMILIES[name] if c != bound[name]] or ROUTE_FAMILIES[name])
+                ops.append(("remove", name))
+                if rng.random() < 0.3:
+                    ops.append(("reconnect",))
+                ops.append(("create", name, new))
+                bound[name] = new
+                ops.append(("lookup", "cli", rng.choice(["by_name", "instrument", "task"]), name))
+        elif k == "lookup":
+            ops.append(("lookup", rng.choice(["cli", "cli", "srv"]), rng.choice(["by_name", "instrument", "task"]), name))
+        elif k == "served":
+            ops.append(("served", rng.choice(["cli", "srv"]), name))
+        elif k == "list":
+            ops.append(("list", rng.choice(["cli", "srv"])))
+        else:
+            ops.append(("reconnect",))
+    return ops
+
+
+def scenario_routes(s, gmodname, ops):
+    """Two real contexts over the fake network (srv hosts the objects, cli is connected to it).  Every proxy is
+    checked at the moment it is obtained.  Returns the list of observations, one per op."""
+    import logging
+    logging.disable(logging.CRITICAL)
+    from qmi.core.context import QMI_Context
+    from qmi.core.config_defs import CfgQmi, CfgContext
+    from qmi.core.rpc import non_blocking_rpc_method_call, make_interface_descriptor, QMI_RpcProxy
+    from qmi.core.task import QMI_TaskRunner
+    from qmi.core.exceptions import QMI_UnknownRpcException
+    from qmi.core.messaging import QMI_MessageHandlerAddress as Addr
+    gm = sys.modules[gmodname]
+    LOG = gm.LOG
+    cfg = CfgQmi(contexts={"srv": CfgContext(tcp_server_port=5001), "cli": CfgContext(tcp_server_port=5002)})
+    ctx = {"srv": QMI_Context("srv", cfg), "cli": QMI_Context("cli", cfg)}
+    ctx["srv"].start()
+    ctx["cli"].start()
+    ctx["cli"].connect_to_peer("srv", "127.0.0.1:5001")
+    never_probe = {m.name for m in make_interface_descriptor(QMI_TaskRunner).methods} - {"get_name", "get_signals"}
+    made = {}        # name -> (proxy returned by make_*, class name)
+    obs = []
+
+    def forwarders(px):
+        return sorted(n for n, v in vars(px).items() if isinstance(v, types.MethodType) and v.__self__ is px)
+
+    def check_proxy(who, px, name, route):
+        """-> dict(forwarders, nonblocking, accepted, pool, problems)"""
+        cur = made.get(name)
+        fw = forwarders(px)
+        fwnb = forwarders(px.rpc_nonblocking)
+        pool = [n for n in sorted(set(ROUTE_POOL) | set(fw)) if n not in never_probe]
+        accepted, executed_on_reject = [], []
+        for nm in pool:
+            del LOG[:]
+            fut = non_blocking_rpc_method_call(ctx[who], Addr("srv", name), nm, None)
+            try:
+                fut.wait(timeout=20)
+                accepted.append(nm)
+            except QMI_UnknownRpcException:
+                if LOG:
+                    executed_on_reject.append((nm, list(LOG)))
+            except BaseException:  # noqa   (the method was found and ran)
+                accepted.append(nm)
+        direct = None
+        if cur is not None:
+            direct = sorted(m.name for m in make_interface_descriptor(getattr(gm, cur[1])).methods)
+        problems = []
+        if fw != fwnb:
+            problems.append("blocking and non-blocking proxy differ: %r" % sorted(set(fw) ^ set(fwnb)))
+        offered = sorted(set(fw) - never_probe)
+        if offered != sorted(accepted):
+            problems.append("the proxy offers %r which the object now bound to the name rejects; the object accepts %r "
+                            "which the proxy does not offer" % (sorted(set(offered) - set(accepted)),
+                                                               sorted(set(accepted) - set(offered))))
+        if direct is not None and fw != direct:
+            problems.append("the proxy's method list differs from the interface of the current class %s by %r"
+                            % (cur[1], sorted(set(fw) ^ set(direct))))
+        if executed_on_reject:
+            problems.append("rejected names executed: %r" % executed_on_reject[:2])
+        if cur is None:
+            problems.append("a proxy was handed out for a name that is not bound")
+        return {"forwarders": fw, "accepted": accepted, "current": cur[1] if cur else None, "route": route,
+                "problems": problems}
+
+    try:
+        for op in ops:
+            kind = op[0]
+            o = {"op": list(op)}
+            if kind == "create":
+                _, name, cname = op
+                K = getattr(gm, cname)
+                try:
+                    if issubclass(K, QMI_TaskRunner):
+                        px = ctx["srv"].make_task(name, gm.R_Task, task_runner=K)
+                    elif cname.startswith("R_i"):
+                        px = ctx["srv"].make_instrument(name, K)
+                    else:
+                        px = ctx["srv"].make_rpc_object(name, K)
+                    if name in made:
+                        o["problems"] = ["a second object was created under a name in use"]
+                    made[name] = (px, cname)
+                    o["created"] = True
+                    o.update(check_proxy("srv", px, name, "make"))           # route 1
+                except BaseException as e:  # noqa
+                    o["created"] = False
+                    o["error"] = type(e).__name__
+                    if name not in made:
+                        o["problems"] = ["creation of %s as %s failed: %r" % (name, cname, e)]
+            elif kind == "remove":
+                name = op[1]
+                if name in made:
+                    ctx["srv"].remove_rpc_object(made.pop(name)[0])
+                    o["removed"] = True
+            elif kind == "lookup":
+                _, who, how, name = op
+                f = {"by_name": ctx[who].get_rpc_object_by_name, "instrument": ctx[who].get_instrument,
+                     "task": ctx[who].get_task}[how]
+                try:
+                    px = f("srv." + name)
+                except ValueError:
+                    px = None
+                if px is None:
+                    o["found"] = False
+                    if name in made:
+                        o["problems"] = ["lookup of srv.%s says unknown although the object exists" % name]
+                else:
+                    o["found"] = True
+                    o.update(check_proxy(who, px, name, "%s:%s" % ("local" if who == "srv" else "peer", how)))
+            elif kind == "served":
+                _, who, name = op
+                cp = ctx[who].make_peer_context_proxy("srv")
+                d = cp.get_rpc_object_descriptor(name)
+                if d is None:
+                    o["found"] = False
+                    if name in made:
+                        o["problems"] = ["$context serves no descriptor for the existing object %s" % name]
+                else:
+                    o["found"] = True
+                    o.update(check_proxy(who, ctx[who].make_proxy(d), name, "served-descriptor:" + who))
+            elif kind == "list":
+                who = op[1]
+                listed = sorted((a, c) for a, c in ctx[who].list_rpc_objects() if a.startswith("srv.") and "$" not in a)
+                want = sorted(("srv." + n, c) for n, (_, c) in made.items())
+                o["listed"] = listed
+                probs = []
+                if listed != want:
+                    probs.append("list_rpc_objects shows %r, the objects are %r" % (listed, want))
+                cp = ctx[who].make_peer_context_proxy("srv")
+                for d in cp.get_rpc_object_descriptors():
+                    n = d.address.object_id
+                    if n.startswith("$"):
+                        continue
+                    r = check_proxy(who, ctx[who].make_proxy(d), n, "served-descriptors:" + who)
+                    probs += ["%s: %s" % (n, p) for p in r["problems"]]
+                o["problems"] = probs
+            elif kind == "reconnect":
+                ctx["cli"].disconnect_from_peer("srv")
+                ctx["cli"].connect_to_peer("srv", "127.0.0.1:5001")
+            o.setdefault("problems", [])
+            obs.append(o)
+            s.obs = obs
+    finally:
+        for c in (ctx["cli"], ctx["srv"]):
+            try:
+                c.stop()
+            except BaseException:  # noqa
+                pass
+    return obs
+
+
+def routes_bucket(ck, gmod, gtabs, gen_params, histories):
+    """run the histories under dsched (one forked child each); oracle per proxy; -> Coq rcase terms"""
+    import dsched
+    ident = {t["cls"].__name__: t["ident"] for t in gtabs if t["cls"].__module__ == gmod.__name__}
+    jobs = [(scenario_routes, (gmod.__name__, h), dict(strategy="fifo")) for h in histories]
+    terms = []
+    nprox = 0
+    for i, res in enumerate(dsched.run_forked(jobs, nproc=16, wall_timeout=120, extra_modules=(gmod.__name__,))):
+        h = histories[i]
+        case = {"origin": "routes", "gen": gen_params, "history": [list(o) for o in h]}
+        ck.count("routes:history:%s" % res["status"])
+        if res["status"] != "ok":
+            ck.report("routes:%s" % res["status"],
+                      "history of create/remove/lookup over two real contexts does not complete (%s): %s"
+                      % (res["status"], str(res.get("trace") or res.get("info"))[-600:]), case)
+            continue
+        rc = []
+        for j, o in enumerate(res["obs"]):
+            op = o["op"]
+            ck.note_case(("routes", i, j), op[0] in ("lookup", "served", "list", "create"))
+            if "forwarders" in o:
+                nprox += 1
+                ck.count("routes:proxy:%s" % o["route"].split(":")[0])
+            if o["problems"]:
+                key = "routes:%s:%s" % (op[0], (o.get("route") or "").replace("srv", "").replace("cli", "").strip(":") or "x")
+                ck.report(key, "step %d of a history (%s): %s; history so far: %r"
+                          % (j, " ".join(map(str, op)), o["problems"][0], [tuple(x) for x in h[:j + 1]][-8:]),
+                          dict(case, step=j, observation=o))
+            if op[0] == "create":
+                rc.append("KCreate %s %s %s" % (T.coq_name(op[1]), ident[op[2]], cbool(o.get("created", False))))
+                if o.get("created") and "forwarders" in o:
+                    rc.append("KLookup %s (Some %s)" % (T.coq_name(op[1]), T.coq_names(o["forwarders"])))
+            elif op[0] == "remove" and o.get("removed"):
+                rc.append("KRemove %s" % T.coq_name(op[1]))
+            elif op[0] in ("lookup", "served"):
+                nm = op[3] if op[0] == "lookup" else op[2]
+                rc.append("KLookup %s %s" % (T.coq_name(nm), "(Some %s)" % T.coq_names(o["forwarders"])
+                                             if o.get("found") else "None"))
+        terms.append("[" + "; ".join(rc) + "]")
+    return terms, nprox
+
 # ---------------------------------------------------------------------------------------------
 # run
 # ---------------------------------------------------------------------------------------------
@@ -1298,6 +1579,8 @@ def run(ck):
         "modules (sys.modules stubs for libraries that are not installed; shared-library loader and "
         "sys.platform shims for two drivers), recording stubs that shield driver method bodies, sys.monitoring "
         "watcher of the code objects of the target's classes",
+        "deterministic runtime harness/dsched.py (fake network, cooperative threads) for the proxy acquisition "
+        "histories over two real QMI_Context objects",
         "CPython attribute lookup (object.__getattribute__, type.__getattribute__, descriptor protocol), "
         "inspect.getmembers / inspect.isfunction",
     ]
@@ -1376,9 +1659,28 @@ def run(ck):
     ck.coverage["generated_class_ok"] = {"true": sum(gok), "false": len(gok) - sum(gok)}
     ck.coverage["member_kinds_shipped"] = _kind_totals(tabs, cache)
     ck.coverage["member_kinds_generated"] = _kind_totals(gtabs, cache)
+    # ---- proxy acquisition routes along histories (two real contexts under dsched; before any thread exists) ----
+    gen_params = {"seed": gseed, "n": ngen}
+    nrand = 10 if ck.tier == "quick" else 300
+    histories = [list(h) for h in ROUTE_FIXED] + [gen_route_history(ck.seed * 131 + i, 22) for i in range(nrand)]
+    rterms, nprox = routes_bucket(ck, gmod, gtabs, gen_params, histories)
+    ck.coverage["acquisition_routes"] = {"histories": len(histories), "fixed": len(ROUTE_FIXED),
+                                         "operations": sum(len(h) for h in histories), "proxies_checked": nprox,
+                                         "routes": ["make_rpc_object/make_instrument/make_task return value",
+                                                    "get_rpc_object_by_name/get_instrument/get_task local",
+                                                    "the same from a peer context over the fake network",
+                                                    "$context.get_rpc_object_descriptor(s), list_rpc_objects"]}
+    rbad = ck.run_model(CORR, "check_rcase", rterms, "list rcop", shard=8) if rterms else []
+    ck.coverage["routes_correspondence_disagreements"] = len(rbad)
+    for i in rbad[:2]:
+        where = ck.model_eval(CORR, "rc_first_bad [] %s 0" % rterms[i])
+        ck.report("corr:routes", "implementation and Coq model (rrun / rlookup) disagree on a history of "
+                  "create/remove/lookup: first differing observation %s" % where[:120],
+                  {"origin": "routes", "gen": gen_params, "rcase": rterms[i][:3000],
+                   "broken": "correspondence C05.Corr.check_rcase"}, found_input=False)
     # ---- implementation runs ---------------------------------------------------------------------------------
     collect = {"instantiated": 0, "not_instantiable": [], "unscanned_instance_attrs": {},
-               "gen_params": {"seed": gseed, "n": ngen}, "gen_log": None}
+               "gen_params": gen_params, "gen_log": None}
     terms, metas = [], []
     for t, ok in zip(tabs, shipped_ok):
         term, meta = check_class(ck, t, cache, "shipped", ck.rng, True, collect)
@@ -1440,7 +1742,10 @@ def run(ck):
                      "classes (%d inside class_ok) went through the same translator and checks. Fixed buckets: "
                      "histories over 14 live objects of different classes (C05_history_independent), marked protected "
                      "names reaching a class through an intermediate base / grandparent / mix-in, marked methods from "
-                     "mix-ins before/after the RPC base, non-string and exotic method names. "
+                     "mix-ins before/after the RPC base, non-string and exotic method names; proxy acquisition routes "
+                     "(make_* return value, local and peer get_rpc_object_by_name/get_instrument/get_task, descriptors "
+                     "served by $context, list_rpc_objects) along create/remove/re-create/reconnect histories over two "
+                     "real contexts (C05_lookup_advertises_current, C05_lookup_after_recreate). "
                      % (len(tabs), n_ship_inst, len(tabs) - n_ship_inst, len(gtabs), sum(gok)))
 
 
@@ -1497,10 +1802,30 @@ def replay(rep):
     try:
         cache = {}
         origin = c.get("origin")
-        if origin in ("generated", "history"):
+        if origin in ("generated", "history", "routes"):
             os.makedirs(scratch, exist_ok=True)
             gmod, classes, _ = load_generated(scratch, c["gen"]["seed"], c["gen"]["n"])
             collect["gen_log"] = gmod.LOG
+        if origin == "routes":
+            import dsched
+            res = dsched.run_forked([(scenario_routes, (gmod.__name__, [tuple(o) for o in c["history"]]),
+                                      dict(strategy="fifo"))], nproc=1, wall_timeout=120,
+                                    extra_modules=(gmod.__name__,))[0]
+            print("status:", res["status"])
+            bad = res["status"] != "ok"
+            for j, o in enumerate(res.get("obs") or []):
+                line = "%2d %-40s" % (j, " ".join(map(str, o["op"])))
+                if "forwarders" in o:
+                    line += " bound class %s; proxy offers %r; object accepts %r" % (o["current"], o["forwarders"], o["accepted"])
+                elif "found" in o:
+                    line += " not found"
+                print(line)
+                for pr in o["problems"]:
+                    bad = True
+                    print("     oracle: " + pr)
+            if not bad:
+                print("oracle: the property holds on this history")
+            return 1 if bad else 0
         if origin == "history":
             tabs, _, cache = T.translate(T.shipped_classes(), cache)
             gtabs, _, cache = T.translate([k for k in classes if k.__name__.startswith("H_")], cache)
